@@ -165,6 +165,74 @@ def readapi_spec(ctx: Ctx, rep: Report) -> None:
         )
 
 
+def front_rear_spec(ctx: Ctx, rep: Report) -> None:
+    """An operation can be both the first and the last one on a qudit:
+    wherever a mutator retargets `_front[q]` and `_rear[q]` under equality
+    tests with the same point, the two tests must be independent (neither
+    nested in, nor an else-branch of, the other)."""
+    R = 'FRONTREAR'
+    n = 0
+    for name in ('pop', 'replace', 'straighten'):
+        f = _fn(ctx, name)
+        g = ctx.cfg(f)
+        rep.seen(f.qualname)
+        fr = [t for t in g.nodes if t.kind == 'test' and norm(
+            t.stmt.test).startswith('self._front[')]
+        rr = [t for t in g.nodes if t.kind == 'test' and norm(
+            t.stmt.test).startswith('self._rear[')]
+        for a in fr:
+            for b in rr:
+                ta, tb = a.stmt.test, b.stmt.test
+                if not (isinstance(ta, ast.Compare) and isinstance(
+                        tb, ast.Compare)):
+                    continue
+                if norm(ta.comparators[0]) != norm(tb.comparators[0]):
+                    continue
+                n += 1
+                rep.count()
+                dep = any(g.edge_dominates(a.id, lab, b.id)
+                          for lab in ('true', 'false')) or any(
+                    g.edge_dominates(b.id, lab, a.id)
+                    for lab in ('true', 'false'))
+                rep.check(
+                    not dep, R, f'Circuit.{name}', f.path, b.lineno,
+                    f'`{norm(ta)[:40]}` and `{norm(tb)[:40]}` are tested '
+                    'independently',
+                    f'`{norm(tb)[:50]}` (line {b.lineno}) is only evaluated '
+                    f'on one outcome of `{norm(ta)[:50]}` (line '
+                    f'{a.lineno}): an operation that is both first and last '
+                    'on a qudit gets only one of the two pointers updated',
+                    key=norm(tb.comparators[0]),
+                )
+    rep.floor(R, n, 3, 'front/rear retarget pairs')
+
+
+def straighten_shadow_spec(ctx: Ctx, rep: Report) -> None:
+    """straighten: every qudit of a moved operation joins the shadow."""
+    R = 'SHADOW'
+    f = _fn(ctx, 'straighten')
+    rep.seen(f.qualname)
+    g = ctx.cfg(f)
+    moved = [x for x in g.nodes if q.assigns('gate_moved', 'True')(x)]
+    ext = [x for x in g.nodes if q.has_call(
+        'qudits_to_add_to_shadow.extend', ['op.location'])(x)]
+    upd = [x for x in g.nodes if q.has_call(
+        'shadow_qudits.update', ['qudits_to_add_to_shadow'])(x)]
+    rep.count()
+    ok = len(moved) == 1 and len(ext) == 1 and len(upd) == 1 and {
+        (t.id, l) for t, l in g.guards_of(moved[0].id)
+        if t.kind == 'test'} == {
+        (t.id, l) for t, l in g.guards_of(ext[0].id) if t.kind == 'test'}
+    rep.check(
+        ok, R, 'Circuit.straighten:shadow', f.path, f.lineno,
+        'all qudits of every moved operation are added to the shadow',
+        'a moved operation does not add all of its qudits '
+        '(`op.location`) to the shadow region: later cycles on its other '
+        'qudits are not pushed and operations get reordered',
+        key='shadow',
+    )
+
+
 def insert_spec(ctx: Ctx, rep: Report) -> None:
     I = 'INSERT'
     f = _fn(ctx, 'insert')
